@@ -37,6 +37,7 @@ class Contract:
         self.xinv = kw.pop('xinv', True)
         self.frame_props = kw.pop('frame_props', None)
         self.variant = kw.pop('variant', None)
+        self.assume_callee_pre = kw.pop('assume_callee_pre', [])   # callees whose preconditions are assumed here
         self.sites = kw.pop('sites', None)               # call ordinal -> dict(assert=[pred], effect=name, props=[..])
         self.expect_refuted = kw.pop('expect_refuted', False)   # case split pinned as an open finding
         self.effects_check = kw.pop('effects_check', [])   # engine routines producing obligations about external calls
@@ -246,6 +247,10 @@ def file_log(name):
     return FILE_LOGS.setdefault(name, [])
 
 
+def rng_seed(r):
+    raise NotImplementedError('rng_seed has no concrete reading')
+
+
 def desc_writes_ok():
     return True
 
@@ -297,6 +302,6 @@ class Old:
 
 NATIVE_HELPERS = dict(pos_in=pos_in, implies=implies, iff=iff, index_of=index_of, order_of=order_of, key_at=key_at,
                       is_fresh=is_fresh, same_elems=same_elems, same_dict=same_dict, typeof=typeof, same=same, same_obj=same_obj, now=now, was=was, origin=origin, by_lemma=by_lemma, as_list=as_list, is_ndarray=is_ndarray, is_list=is_list, is_str_value=is_str_value, iterable=iterable, items_of=items_of, rec_has=rec_has,
-                      rec_get=rec_get, as_dict=as_dict, file_log=file_log, desc_writes_ok=desc_writes_ok, agg_min=agg_min, agg_max=agg_max, agg_mean=agg_mean, agg_sum=agg_sum,
+                      rec_get=rec_get, as_dict=as_dict, file_log=file_log, desc_writes_ok=desc_writes_ok, rng_seed=rng_seed, agg_min=agg_min, agg_max=agg_max, agg_mean=agg_mean, agg_sum=agg_sum,
                       agg_variance=agg_variance,
                       is_none=is_none)
